@@ -249,7 +249,14 @@ impl<T> OptionParser<T> {
             Err(_) => true,
         };
 
-        if parser_failed && self.info.help_if_no_args && no_args {
+        // a shell asking for completions gets completions: the usage is for a human who typed
+        // nothing at this level (an item of this line may have been consumed by an outer parser)
+        #[cfg(feature = "autocomplete")]
+        let completing = args.is_comp();
+        #[cfg(not(feature = "autocomplete"))]
+        let completing = false;
+
+        if parser_failed && self.info.help_if_no_args && no_args && !completing {
             let buffer = render_help(
                 &args.path,
                 &self.info,
